@@ -29,33 +29,54 @@ type hist struct {
 	rcMode bool
 	m      machine
 
-	prev      view
+	prev      view // the store as last summarised on a line
+	last      view // the store after the last committed block / collection
 	cont      map[string][]byte
 	recs      map[uint32]*rec
 	heights   []uint32
 	gcDone    bool
 	gcAt      uint32
 	tied      bool
+	rootOnly  bool // after a dropped block with the live trie in memory: only state roots are compared
 	afterDrop bool
+	dropFail  bool
 	dead      bool // the machine panicked or errored: the case is over
 	probes    [][]byte
 }
 
 func newHist(o *hx.Out, k int, mode string, m machine) *hist {
-	h := &hist{o: o, k: k, mode: mode, rcMode: mode != "all", m: m, prev: view{}, cont: map[string][]byte{}, recs: map[uint32]*rec{}, tied: true}
+	h := &hist{o: o, k: k, mode: mode, rcMode: mode != "all", m: m, prev: view{}, last: view{}, cont: map[string][]byte{}, recs: map[uint32]*rec{}, tied: true}
 	h.line("mode "+mode, "ok")
 	return h
 }
 
 func (h *hist) line(op, obs string) {
-	if h.tied {
-		h.o.Line(op, obs)
+	if !h.tied {
+		return
 	}
+	if h.rootOnly && !strings.HasPrefix(op, "blkq ") && !strings.HasPrefix(op, "drop ") {
+		return
+	}
+	h.o.Line(op, obs)
 }
 
+// fail reports an oracle failure. After a dropped block only the first failure of the case is
+// reported, under one of three keys (state root / node store / panic): DESIGN §6 item 11.
 func (h *hist) fail(key string, format string, a ...any) {
 	if h.afterDrop {
-		key = "after-drop:" + key
+		if h.dropFail {
+			return
+		}
+		h.dropFail = true
+		switch {
+		case key == "root-mismatch":
+			key = "uncommitted-block:root"
+		case strings.HasPrefix(key, "panic") || strings.HasPrefix(key, "error") || key == "read-panic":
+			key = "uncommitted-block:panic"
+		default:
+			format = "(" + key + ") " + format
+			key = "uncommitted-block:store"
+		}
 	}
 	h.o.Fail(key, h.k, "[%s/%s] "+format, append([]any{h.m.Name(), h.mode}, a...)...)
 }
@@ -121,7 +142,9 @@ func rootIsBranch(cont map[string][]byte) bool {
 func (h *hist) block(idx uint32, ops []subop) {
 	root, obs := h.m.Block(idx, ops, true)
 	if obs != "" {
-		h.line(fmt.Sprintf("blk %d %s", idx, subStr(ops)), obs)
+		if !h.rootOnly {
+			h.line(fmt.Sprintf("blk %d %s", idx, subStr(ops)), obs)
+		}
 		h.dead = true
 		if obs == "panic" {
 			h.fail("panic-in-block", "block %d panicked", idx)
@@ -130,13 +153,14 @@ func (h *hist) block(idx uint32, ops []subop) {
 		}
 		return
 	}
-	h.committed(idx, ops, root, applyOps(h.cont, ops), false)
+	h.committed(idx, ops, root, applyOps(h.cont, ops), h.rootOnly)
 }
 
 // committed records a committed block: observation line, bookkeeping, oracles.
 // quiet: the store is not summarised on this line (a GC may be running concurrently).
 func (h *hist) committed(idx uint32, ops []subop, root util.Uint256, cont map[string][]byte, quiet bool) {
 	cur := h.m.View()
+	h.last = cur
 	if quiet {
 		h.line(fmt.Sprintf("blkq %d %s", idx, subStr(ops)), "r="+hex.EncodeToString(root[:]))
 	} else {
@@ -158,7 +182,7 @@ func (h *hist) committed(idx uint32, ops []subop, root util.Uint256, cont map[st
 func (h *hist) sync() {
 	cur := h.m.View()
 	h.line("sync", storeObs(h.rcMode, h.prev, cur))
-	h.prev = cur
+	h.prev, h.last = cur, cur
 	h.checkRetained(cur, true)
 }
 
@@ -176,26 +200,27 @@ func (h *hist) gcObserved(g uint32) {
 func (h *hist) drop(idx uint32, ops []subop) {
 	inMem := h.m.CanDrop() && rootIsBranch(h.cont) && rootIsBranch(applyOps(h.cont, ops))
 	root, obs := h.m.Block(idx, ops, false)
-	h.afterDrop = true
 	if !inMem {
-		// the aliasing of the shallow copy is outside the model here: stop comparing with the driver
+		// which Go objects the shallow copy shares is outside the model here: stop comparing
 		h.line("wild", "ok")
 		h.tied = false
 		h.o.Count("drop:wild")
 	} else {
 		h.o.Count("drop:tied")
 	}
-	op := fmt.Sprintf("drop %d %s", idx, subStr(ops))
 	if obs != "" {
-		h.line(op, obs)
+		h.afterDrop = true
 		h.dead = true
 		h.fail("panic-in-block", "dropped block %d: %s", idx, obs)
 		return
 	}
-	h.line(op, "r="+hex.EncodeToString(root[:]))
-	// the store must not have changed
+	h.line(fmt.Sprintf("drop %d %s", idx, subStr(ops)), "r="+hex.EncodeToString(root[:]))
+	// from here on the node store is no longer predictable (Flush mutates stored slices in place),
+	// the state roots still are
+	h.rootOnly = true
+	h.afterDrop = true
 	cur := h.m.View()
-	if !sameView(cur, h.prev) {
+	if !sameView(cur, h.last) {
 		h.fail("drop-changed-store", "a dropped block changed the node store")
 	}
 }
@@ -216,7 +241,7 @@ func (h *hist) gc(g uint32) {
 	h.m.GC(g)
 	cur := h.m.View()
 	h.line(fmt.Sprintf("gc %d", g), storeObs(h.rcMode, h.prev, cur))
-	h.prev = cur
+	h.prev, h.last = cur, cur
 	if !h.gcDone || g > h.gcAt {
 		h.gcAt = g
 	}
@@ -234,6 +259,14 @@ func (h *hist) gc(g uint32) {
 }
 
 func (h *hist) reset() {
+	if len(h.heights) > 0 && isZero(h.recs[h.heights[len(h.heights)-1]].root) {
+		// a module restarted on the empty trie wraps the zero root into a HashNode and fails on the
+		// next batch; a real chain never has an empty state, not generated
+		return
+	}
+	if h.rootOnly {
+		h.tied = false
+	}
 	h.m.Reset()
 	h.line("reset", "ok")
 	h.o.Count("reset")
